@@ -30,7 +30,7 @@ type randSlot struct {
 }
 
 var randSlots = []randSlot{
-	{"fileKey", pkgAge, "", "Encrypt", []string{"arg:age.wrapWithLabels:1", "arg:age.headerMAC:0", "arg:age.streamKey:0"}, "16", false},
+	{"fileKey", pkgAge, "", "Encrypt", []string{"arg:invoke (age.Recipient).Wrap:1", "arg:invoke (age.RecipientWithLabels).WrapWithLabels:1", "arg:age.headerMAC:0", "arg:age.streamKey:0"}, "16", false},
 	{"payloadNonce", pkgAge, "", "Encrypt", []string{"arg:age.streamKey:1", "arg:invoke (io.Writer).Write:1"}, "16", false},
 	{"x25519Ephemeral", pkgAge, "X25519Recipient", "Wrap", []string{"arg:curve25519.X25519#1:0", "arg:curve25519.X25519#2:0"}, "32", false},
 	{"ed25519Ephemeral", pkgSSH, "Ed25519Recipient", "Wrap", []string{"arg:curve25519.X25519#1:0", "arg:curve25519.X25519#2:0"}, "32", false},
